@@ -1,0 +1,64 @@
+//go:build verif
+
+// Contracts for package issuer, checked by /verif/govc (comment-only; not part of any normal build).
+
+package issuer
+
+//@ func (issuer).buildAndSignVC
+//@   trusted
+//@   benign
+//@   ensures isNilIface(result.1) ==> result.0 != nil
+//@ func json.Marshal
+//@   trusted
+//@   benign
+//@ func jsonld.AllFieldsDefined
+//@   trusted
+//@   benign
+//@ func (jsonld.JSONLD).DocumentLoader
+//@   trusted
+//@   benign
+//@ func credential.FindValidator
+//@   trusted
+//@   benign
+//@   ensures !isNilIface(result)
+//@ func (credential.Validator).Validate
+//@   trusted
+//@   benign
+//@ func credential.ExtractTypes
+//@   trusted
+//@   benign
+//@ func (*trust.Config).AddTrust
+//@   trusted
+//@   benign
+//@ func go-did.MustParseURI
+//@   trusted
+//@   benign
+//@ func (Store).StoreCredential
+//@   trusted
+//@   benign
+//@ func (Publisher).PublishCredential
+//@   trusted
+//@   benign
+//@ func (issuer).issueUsingOpenID4VCI
+//@   trusted
+//@   benign
+
+// ---- C01 (converse direction): what the issuer stores, offers or publishes is what its own verifier accepts ----
+// A credential leaves Issue - into the issuer's store, to a wallet over OpenID4VCI, onto the network, or
+// to the caller - only after every member of the signed credential was found to be defined by its
+// context (what the verifier's VerifySignature demands since finding #29) and its type-specific
+// validator accepted it (what verifier.Verify runs first); it is trusted for its own types before that.
+//@ func (issuer).Issue
+//@   prop C01
+//@   loop 1 invariant createdVC != nil
+//@   call (Store).StoreCredential #1 requires [stored-only-if-all-members-are-signed-and-the-validator-accepts]
+//@        isNilIface(ret(call (issuer).buildAndSignVC #1).1) && createdVC == ret(call (issuer).buildAndSignVC #1).0 && same(arg(1), *createdVC)
+//@        && isNilIface(ret(call jsonld.AllFieldsDefined #1)) && arg(call jsonld.AllFieldsDefined #1, 1) == ret(call json.Marshal #1).0
+//@        && arg(call json.Marshal #1, 0) == any(createdVC)
+//@        && isNilIface(ret(call (credential.Validator).Validate #1)) && same(arg(call (credential.Validator).Validate #1, 1), *createdVC)
+//@        && arg(call (credential.Validator).Validate #1, 0) == ret(call credential.FindValidator #1) && same(arg(call credential.FindValidator #1, 0), *createdVC)
+//@        && $done1
+//@   call (Publisher).PublishCredential #1 requires [published-only-after-it-was-stored] isNilIface(ret(call (Store).StoreCredential #1)) && same(arg(2), *createdVC) && options.Publish && arg(3) == options.Public
+//@   call (issuer).issueUsingOpenID4VCI #1 requires [offered-only-after-it-was-stored] isNilIface(ret(call (Store).StoreCredential #1)) && same(arg(2), *createdVC) && options.Publish && !options.Public
+//@   ensures [returned-only-after-it-was-stored] isNilIface(result.1) ==> result.0 != nil && did(call (Store).StoreCredential #1) && isNilIface(ret(call (Store).StoreCredential #1)) && result.0 == ret(call (issuer).buildAndSignVC #1).0
+//@   ensures [jwt-credentials-are-never-published] options.Publish && options.Format == vc.JWTCredentialProofFormat ==> !isNilIface(result.1) && !did(call (Store).StoreCredential #1)
